@@ -17,6 +17,10 @@ PROVED:
     that only drains never brings the three to a halt, for every n and every schedule; nor does anything halt
     without a writer; but with n ≥ 2, b ≥ 1 and a writer a halt IS reachable (the witness is replayed on the
     implementation by the `N` lines: known finding D37);
+  * `using_the_store_mid_lookup_never_halts`, `nested_locks_can_halt` (Model/Chan2.lean: the store's lock and a graph's) —
+    a consumer that uses the store between two results while another goroutine drops the graph never halts anything,
+    because every method holds one lock at a time; a `DeleteGraph` that waited for the graph's lock while holding the
+    store's would (the `S` lines run this on the implementation);
   * `rw_linearizable`, `rw_real_time` — calls that follow this discipline (one readers-writer lock, taken for the whole
     body: exclusive by updates, shared by look-ups), modelled in small steps (an update is a sequence of micro-writes, a
     look-up a sequence of micro-reads), are linearizable for every number of calls, every batch size and every
@@ -39,6 +43,7 @@ import BW.Generated.LockFacts
 import BW.Proofs.RW
 import BW.Model.Store
 import BW.Proofs.Chan
+import BW.Proofs.Chan2
 
 namespace BW.Props.C07
 open BW.Model.Linear BW.Proofs.Linear BW.Generated
@@ -155,6 +160,24 @@ theorem halt_search_sound (fuel : Nat) (s0 : Sys) (h : canHalt fuel [s0] = true)
 /-- The fact the model rests on, regenerated: every look-up holds the read lock for its whole body — sends included. -/
 example : (lockFacts.any fun f => f.name == "Triples" && f.lock == .read && f.scope == .whole) = true := by decide
 
+/-! ### Two locks: the store's and a graph's -/
+
+open BW.Model.Chan2 in
+/-- A consumer that uses the store (Graph, GraphNames, NewGraph, DeleteGraph of another graph) between two results of a
+    look-up, while another goroutine drops the graph it reads: nothing halts, for every number of results and every
+    schedule — because every method holds one lock at a time (`lock_discipline`: no method locks anything but its
+    receiver's mutex). -/
+theorem using_the_store_mid_lookup_never_halts (n : Nat) (sched : List Tid) :
+    (run (start n false) sched).finished = true ∨ (run (start n false) sched).stuck = false :=
+  store_use_never_deadlocks n sched
+
+open BW.Model.Chan2 in
+/-- … and why the discipline matters: a `DeleteGraph` that waits for the graph's lock while it holds the store's halts
+    the three (the look-up waits for its consumer, the consumer for the store, `DeleteGraph` for the look-up). -/
+theorem nested_locks_can_halt :
+    (run (start 2 true) [.p, .p, .d]).stuck = true ∧ (run (start 2 true) [.p, .p, .d]).finished = false :=
+  nested_delete_deadlocks
+
 end BW.Props.C07
 
 #print axioms BW.Props.C07.lock_discipline
@@ -169,3 +192,5 @@ end BW.Props.C07
 #print axioms BW.Props.C07.without_writer_nothing_halts
 #print axioms BW.Props.C07.consumer_reading_the_graph_can_halt
 #print axioms BW.Props.C07.halt_search_sound
+#print axioms BW.Props.C07.using_the_store_mid_lookup_never_halts
+#print axioms BW.Props.C07.nested_locks_can_halt
